@@ -19,7 +19,7 @@
 //	   out: value-in-type | value-outside-type | reported <CODE> | fault | bad-receiver
 //
 // Direct predicates (classes): not-first, outside-declaration-{arity,param,block}, match-but-reported,
-// nomatch-not-reported, wrong-error, args-altered, fault; new-outside-type, new-fault.
+// nomatch-not-reported, wrong-error, args-altered, fault; new-outside-type, new-fault-<receiver kind>.
 package c16
 
 import (
@@ -355,18 +355,18 @@ func (d *disp) decl() *decl {
 
 // accepts: the independent reference (px.IsInstance on types parsed from alias-expanded text; own arithmetic
 // for arity and block).  Returns "" or the reason of rejection (arity, param, block).
-func (r *decl) accepts(c px.Context, env map[string]*ty, args []px.Value, blk *blockSpec, cache map[string]px.Type) string {
+func (r *decl) accepts(c px.Context, env map[string]*ty, args []px.Value, blk *blockSpec, block px.Lambda, cache map[string]px.Type) string {
 	switch r.block {
 	case "none":
 		if blk != nil {
 			return "block"
 		}
 	case "required":
-		if blk == nil || !blockFits(r.bt, blk) {
+		if blk == nil || !blockIsInstance(c, r.bt, block, cache) {
 			return "block"
 		}
 	case "optional":
-		if blk != nil && !blockFits(r.bt, blk) {
+		if blk != nil && !blockIsInstance(c, r.bt, block, cache) {
 			return "block"
 		}
 	}
@@ -403,19 +403,15 @@ func (r *decl) accepts(c px.Context, env map[string]*ty, args []px.Value, blk *b
 	return ""
 }
 
-// blockFits: a block taking [bmin,bmax] arguments satisfies Callable[min,max] when its arity range lies within
-// [min,max] (this is the reading CallableWith implements: isAssignable(block.PType(), declared))
-func blockFits(bt *btype, blk *blockSpec) bool {
-	if bt.any {
-		return true
+// blockIsInstance: the block requirement of the reference is "the block is an instance of the declared block type"
+func blockIsInstance(c px.Context, bt *btype, block px.Lambda, cache map[string]px.Type) bool {
+	s := bt.src()
+	t, ok := cache[s]
+	if !ok {
+		t = c.ParseType(s)
+		cache[s] = t
 	}
-	if blk.min < *bt.min {
-		return false
-	}
-	if bt.max == nil {
-		return true
-	}
-	return blk.max != nil && *blk.max <= *bt.max
+	return px.IsInstance(t, block)
 }
 
 func makeBlock(c px.Context, b *blockSpec) px.Lambda {
@@ -603,7 +599,7 @@ func execCall(c px.Context, args []sx.Sexp) core.Result {
 	reasons := make([]string, len(ds))
 	refErr := safely(func() {
 		for i, d := range ds {
-			reasons[i] = d.decl().accepts(c, env, vals, blk, cache)
+			reasons[i] = d.decl().accepts(c, env, vals, blk, block, cache)
 			if reasons[i] == "" && first < 0 {
 				first = i
 			}
@@ -734,7 +730,8 @@ func execNew(c px.Context, args []sx.Sexp) core.Result {
 		res.Out = out
 	default:
 		res.Out = "fault"
-		res.Pred = fmt.Sprintf("FAIL new-fault %s.new ended in a Go runtime fault instead of a reported error", src)
+		// the class names the receiver kind so that faults with different roots are reported separately
+		res.Pred = fmt.Sprintf("FAIL new-fault-%s %s.new ended in a Go runtime fault instead of a reported error", strings.Replace(name, "::", ".", -1), src)
 	}
 	res.Tags = append(res.Tags, "new.out="+strings.Replace(res.Out, " ", ":", -1))
 	return res
